@@ -14,7 +14,7 @@ Extracted (ast only):
 Anything unrecognised -> `none` / false + a failed status entry; nothing is guessed."""
 import ast
 
-from translator.extract import find_class, find_func, generator, lean_list, lean_str, parse, strip_docstring
+from translator.extract import all_type_args_forms, find_class, find_func, generator, lean_list, lean_str, parse, strip_docstring
 
 
 def _body(fn):
@@ -25,12 +25,12 @@ def _no_stdout(lines):
     return [ln for ln in lines if not ln.startswith('stdout.append(format_stdout(')]
 
 
-def _prim_rule(fn, name):
+def _prim_rule(fn, name, mt=None):
     """`if cls.prim in [...]: return False [elif cls.prim == 'lambda': return True]` + `return all(map(lambda x: x.<name>(), cls.args))`"""
     body = strip_docstring(fn.body)
     if len(body) != 2 or not isinstance(body[0], ast.If):
         return None
-    if ast.unparse(body[1]) != f'return all(map(lambda x: x.{name}(), cls.args))':
+    if ast.unparse(body[1]) not in all_type_args_forms(mt, name):
         return None
     first = body[0]
     t = first.test
@@ -158,7 +158,7 @@ def gen(status):
                           ('is_comparable', 'nonComparablePrims', 'not comparable'),
                           ('is_pushable', 'nonPushablePrims', 'not pushable')):
         fn = find_func(base, py)
-        prims = _prim_rule(fn, py) if fn is not None else None
+        prims = _prim_rule(fn, py, base) if fn is not None else None
         status[f'MichelsonType.{py} rule'] = (prims is not None, str(prims) if prims is not None else 'unrecognised: ' + (ast.unparse(fn)[:300] if fn else 'missing'))
         out.append(f'/-- `MichelsonType.{py}`: {doc} (otherwise: `lambda` is, and any other type is iff all its arguments are) -/')
         out.append(f'def {lean} : Option (List String) := {_opt_list(prims)}')
